@@ -83,6 +83,40 @@ def make_host():
     for n in CATALOGUE:
         host[n] = typed(n)
 
+    def positional_this(name, before, this_kind, after):
+        """This<T> declared after `before` positional parameters: in method style the receiver, in function
+        style the next unconsumed argument."""
+        def f(ev, recv, arg_exprs, env):
+            got, idx = [], 0
+
+            def take(letter):
+                nonlocal idx
+                if idx >= len(arg_exprs):
+                    raise CelError('arg_count', 'missing argument')
+                v = ev.ev(arg_exprs[idx], env)
+                idx += 1
+                if not conv_ok(letter, v):
+                    raise CelError('type', 'argument kind')
+                return v
+            for p_ in before:
+                got.append(take(p_))
+            if recv is not None:
+                if not conv_ok(this_kind, recv):
+                    raise CelError('type', 'this kind')
+                got.append(recv)
+            else:
+                if idx >= len(arg_exprs):
+                    raise CelError('arg_count', 'missing target')
+                got.append(take(this_kind))
+            for p_ in after:
+                got.append(take(p_))
+            ev.log.append([name] + [to_json(x) for x in got])
+            return ('s', name)
+        return f
+    host['p2_iv'] = positional_this('p2_iv', 'i', 'v', '')
+    host['p3_ivi'] = positional_this('p3_ivi', 'i', 'v', 'i')
+    host['p3_ssv'] = positional_this('p3_ssv', 'ss', 's', '')
+
     def va(ev, recv, arg_exprs, env):
         args = [ev.ev(a, env) for a in arg_exprs]
         ev.log.append(["va", None if recv is None else to_json(recv)] + [to_json(a) for a in args])
